@@ -1,6 +1,9 @@
 package sim
 
 import (
+	"archive/tar"
+	"bytes"
+	"context"
 	"errors"
 	"fmt"
 	"strings"
@@ -9,6 +12,7 @@ import (
 	"github.com/hack-pad/hackpadfs/mem"
 	"github.com/hack-pad/hackpadfs/mount"
 	hos "github.com/hack-pad/hackpadfs/os"
+	htar "github.com/hack-pad/hackpadfs/tar"
 	"github.com/hack-pad/hackpadfs/verifmt"
 )
 
@@ -170,14 +174,26 @@ func buildLayerStack(t *T, k int, ref hackpadfs.FS) *layerStack {
 	case lsOsSub0, lsOsSub2:
 		dir, cleanup := newScratch(t)
 		ls.cleanup = cleanup
-		fs, err := hos.NewFS().Sub(strings.TrimPrefix(dir, "/"))
+		// in half of the trials every file system a Sub is taken from has reported an error before (whatever an FS
+		// remembers from producing its first error must not travel into its Sub views)
+		used := t.C.Chance(1, 2)
+		useFirst := func(fs hackpadfs.FS) {
+			if used {
+				_, _ = hackpadfs.Stat(fs, "verif-missing-name")
+			}
+		}
+		osRoot := hos.NewFS()
+		useFirst(osRoot)
+		fs, err := osRoot.Sub(strings.TrimPrefix(dir, "/"))
 		must(t, err)
 		ls.parts = []hackpadfs.FS{fs}
 		ls.family = "os"
 		if k == lsOsSub2 {
 			must(t, hackpadfs.MkdirAll(fs, "x/y", 0755))
+			useFirst(fs)
 			s1, err := hackpadfs.Sub(fs, "x")
 			must(t, err)
+			useFirst(s1)
 			s2, err := hackpadfs.Sub(s1, "y")
 			must(t, err)
 			ls.name, ls.fs = "os.FS under 3 Sub roots", s2
@@ -375,9 +391,13 @@ func runC05(t *T) {
 	}
 	ref, _, cleanup := osTwin(t)
 	defer cleanup()
-	k := c.Draw(lsCount + 1)
+	k := c.Draw(lsCount + 2)
 	if k == lsCount {
 		k = lsOsRoot
+	}
+	if k == lsCount+1 {
+		c05FailedTar(t)
+		return
 	}
 	ls := buildLayerStack(t, k, ref)
 	defer ls.cleanup()
@@ -442,6 +462,50 @@ func runC05(t *T) {
 	if judged > 0 {
 		t.NonTrivial()
 	}
+}
+
+// c05FailedTar: a tar FS whose unpacking failed on one member with a typed error of the destination FS (an entry
+// below a regular file). Every later call fails; its error still has to be a *PathError naming the caller's path,
+// not the member the unpacker choked on.
+func c05FailedTar(t *T) {
+	c := t.C
+	var buf bytes.Buffer
+	w := tar.NewWriter(&buf)
+	add := func(name string, dir bool, data string) {
+		if dir {
+			must(t, w.WriteHeader(&tar.Header{Name: name + "/", Typeflag: tar.TypeDir, Mode: 0755}))
+			return
+		}
+		must(t, w.WriteHeader(&tar.Header{Name: name, Typeflag: tar.TypeReg, Mode: 0644, Size: int64(len(data))}))
+		_, err := w.Write([]byte(data))
+		must(t, err)
+	}
+	add("top", false, "T")
+	add("d", true, "")
+	add("d/f", false, "0123456789")
+	add("top/x", false, "below a regular file") // the destination refuses this one with a typed error
+	add("e", true, "")
+	must(t, w.Close())
+	r, err := htar.NewReaderFS(context.Background(), bytes.NewReader(buf.Bytes()), htar.ReaderFSOptions{})
+	must(t, err)
+	<-r.Done()
+	if r.UnarchiveErr() == nil {
+		t.Logf("the archive with an entry below a regular file unpacked without error (C12's business)")
+		return
+	}
+	ls := &layerStack{name: "tar (a member could not be unpacked)", family: "tar-failed-member"}
+	names := []string{"top", "d", "d/f", "e", "missing", "d/missing", ".", "top/x"}
+	n := 1 + c.Draw(6)
+	t.Logf("stack=%s unarchive error=%v steps=%d", ls.name, r.UnarchiveErr(), n)
+	for i := 0; i < n; i++ {
+		o := Op{Kind: []string{"Stat", "ReadDir", "ReadFile", "OpenFile"}[c.Draw(4)], P: names[c.Draw(len(names))]}
+		got := applyOpX(r, o)
+		t.Logf("%d %s -> %v", i, o, got.Err)
+		if got.Err != nil {
+			judgeError(t, ls, o, got.Err, nil, o.Kind+"(after-failed-unpack)")
+		}
+	}
+	t.NonTrivial()
 }
 
 // applyOpX is applyOp plus Symlink.
